@@ -13,6 +13,7 @@ import Cte.Model.Box
 import Cte.Model.Ray
 import Cte.Model.Fshobst
 import Cte.Model.Schedules
+import Cte.Model.Solar
 open Cte
 
 def warnKindStr : WarnKind → String
@@ -264,6 +265,26 @@ def opOccupancy (m : Model) : J :=
   J.obj [("hours_in_use", J.ofNat (hoursInUse m)), ("average_load", jr (averageLoad (Fns.approx 0) m)),
          ("loads_avg", J.obj (m.loadsProps.map (fun l => (l.id, jr l.loadsAvg))))]
 
+def angOf (j : Option J) : Option Ang :=
+  match j.map jnums with
+  | some [c, s] => some ⟨c, s⟩
+  | _ => none
+
+/-- op `solar`: the algebraic model evaluated on given (cos, sin) pairs -/
+def opSolar (req : J) : J :=
+  let pts := match req.get? "points" with | some (J.arr l) => l | _ => []
+  J.obj [("points", J.arr (pts.map (fun p =>
+    match angOf (p.get? "d"), angOf (p.get? "h"), angOf (p.get? "w"), angOf (p.get? "b"), angOf (p.get? "g"),
+          angOf (p.get? "az"), angOf (p.get? "alt") with
+    | some d, some h, some w, some b, some g, some az, some alt =>
+      let n := surfaceNormal b g
+      let r := rayDirToSun az alt
+      let sv := sunVec d h w
+      J.obj [("cos_incidence", jr (cosIncidence d h w b g)), ("normal_dot_sun", jr (n.dot sv)),
+             ("sin_altitude", jr (sinAltitude d h w)), ("normal", J.arr [jr n.x, jr n.y, jr n.z]),
+             ("ray_dir", J.arr [jr r.x, jr r.y, jr r.z]), ("sun", J.arr [jr sv.x, jr sv.y, jr sv.z])]
+    | _, _, _, _, _, _, _ => J.null)))]
+
 def withModel (req : J) (f : Model → J) : J :=
   match req.get? "model" with
   | none => J.obj [("error", J.str "no model")]
@@ -287,6 +308,7 @@ def handle (line : String) : String :=
       | some (J.str "indicators") => withModel req (opIndicators req)
       | some (J.str "classify") => opClassify req
       | some (J.str "bvh") => opBvh req
+      | some (J.str "solar") => opSolar req
       | some (J.str "fshobst") => opFshobst req
       | some (J.str "raypoly") => opRayPoly req
       | some (J.str "noop") => J.obj []
